@@ -659,17 +659,82 @@ def stepOpcode (ctx : Ctx) (d : Bytes) (idxc : Int) (index : Int) (regs : Regs) 
     else if info.nbytes = 3 then step3 ctx d opcode info (idxc + 1) index regs st
     else step1 ctx opcode info (idxc + 1) index regs st
 
-/-- the opcode loop. `idxc` strictly increases (one to three bytes per instruction); the runtime test `idxc' > idxc`
-    restates that and is the progress argument. -/
+theorem step1_advance {ctx : Ctx} {opcode : Nat} {info : Opcodes.OpInfo} {idxc index : Int} {regs : Regs} {st : PState}
+    {r : Int × Regs × PState} (h : step1 ctx opcode info idxc index regs st = .ok r) : r.1 = idxc := by
+  unfold step1 at h
+  cases hp : process ctx info (regs.get opcode).1 (regs.get opcode).2 index st with
+  | error e => rw [hp] at h; simp [bind, Except.bind] at h
+  | ok v => rw [hp] at h; simp [bind, Except.bind, pure, Except.pure] at h; rw [← h]
+
+theorem step2_advance {ctx : Ctx} {d : Bytes} {opcode : Nat} {info : Opcodes.OpInfo} {idxc index : Int} {regs : Regs} {st : PState}
+    {r : Int × Regs × PState} (h : step2 ctx d opcode info idxc index regs st = .ok r) : r.1 = idxc + 1 := by
+  unfold step2 at h
+  cases hb : byteAtI d idxc with
+  | error e => rw [hb] at h; simp [bind, Except.bind] at h
+  | ok opcode2 =>
+    rw [hb] at h
+    simp only [bind, Except.bind] at h
+    split at h
+    · split at h
+      · cases h
+      · split at h
+        · cases h
+        · simp only [pure, Except.pure, Except.ok.injEq] at h; rw [← h]
+    · split at h
+      · cases h
+      · simp only [pure, Except.pure, Except.ok.injEq] at h; rw [← h]
+
+theorem step3_advance {ctx : Ctx} {d : Bytes} {opcode : Nat} {info : Opcodes.OpInfo} {idxc index : Int} {regs : Regs} {st : PState}
+    {r : Int × Regs × PState} (h : step3 ctx d opcode info idxc index regs st = .ok r) : r.1 = idxc + 2 := by
+  unfold step3 at h
+  cases hb : byteAtI d idxc with
+  | error e => rw [hb] at h; simp [bind, Except.bind] at h
+  | ok opcode2 =>
+    rw [hb] at h
+    simp only [bind, Except.bind] at h
+    cases hb3 : byteAtI d (idxc + 1) with
+    | error e => rw [hb3] at h; simp at h
+    | ok opcode3 =>
+      rw [hb3] at h
+      simp only at h
+      split at h
+      · split at h
+        · cases h
+        · split at h
+          · cases h
+          · simp only [pure, Except.pure, Except.ok.injEq] at h; rw [← h]
+      · split at h
+        · cases h
+        · simp only [pure, Except.pure, Except.ok.injEq] at h; rw [← h]
+
+/-- every instruction is one to three bytes long: the loop index advances -/
+theorem stepOpcode_advance {ctx : Ctx} {d : Bytes} {idxc index : Int} {regs : Regs} {st : PState}
+    {r : Int × Regs × PState} (h : stepOpcode ctx d idxc index regs st = .ok r) : r.1 > idxc := by
+  unfold stepOpcode at h
+  cases hb : byteAtI d idxc with
+  | error e => rw [hb] at h; simp [bind, Except.bind] at h
+  | ok opcode =>
+    rw [hb] at h
+    simp only [bind, Except.bind] at h
+    split at h
+    · cases h
+    · split at h
+      · have := step2_advance h; omega
+      · split at h
+        · have := step3_advance h; omega
+        · have := step1_advance h; omega
+
+/-- the opcode loop `while (idxc - bc_off) < bc_length`. `idxc` strictly increases (`stepOpcode_advance`). -/
 def opcodeLoop (ctx : Ctx) (d : Bytes) (bcOff bcLen : Int) (idxc : Int) (regs : Regs) (st : PState) : R (Regs × PState) :=
   if idxc - bcOff < bcLen then
-    match stepOpcode ctx d idxc idxc regs st with
+    match h : stepOpcode ctx d idxc idxc regs st with
     | .error e => .error e
-    | .ok (idxc', regs', st') =>
-      if h : idxc' > idxc then opcodeLoop ctx d bcOff bcLen idxc' regs' st' else .error .other
+    | .ok r => opcodeLoop ctx d bcOff bcLen r.1 r.2.1 r.2.2
   else .ok (regs, st)
 termination_by (bcLen - (idxc - bcOff)).toNat
-decreasing_by omega
+decreasing_by
+  have := stepOpcode_advance h
+  omega
 
 /-! ### function records, script -/
 
